@@ -79,6 +79,8 @@ Section Brackets.
      belongs to an element from 128 up and conversely *)
   Hypothesis Hk1 : forall fwd p c p', okp p -> cnext ix fwd h p = Ok (Some (c, p')) -> okp p'.
   Hypothesis Hcp : forall fwd p c p', okp p -> cnext ix fwd h p = Ok (Some (c, p')) -> c <= CODE_POINT_MAX.
+  (* replaying a capture (a stretch of text between two well-formed positions) from a well-formed position ends at one *)
+  Hypothesis Hk4 : forall fwd p rs re e, okp p -> okp rs -> okp re -> subrange_eq fwd h p rs re = Ok (Some e) -> okp e.
   Hypothesis Hbyte1 : forall fwd q, okp q ->
     match next_byte fwd h q with
     | Ok (Some (b, q1)) => if b <? 128 then cnext ix fwd h q = Ok (Some (b, q1))
@@ -217,7 +219,7 @@ Section Brackets.
     split.
     - intros [|f] fwd [q G] r Hx E; [discriminate|]. rewrite bracket_ir in E.
       destruct (bracket_step fwd b q) as [[q'|]|] eqn:Es; inversion E; subst; constructor; [|constructor].
-      eapply bracket_step_clo; eauto.
+      apply (oks_move okp q G q' Hx). eapply bracket_step_clo; [exact (proj1 Hx)|exact Es].
     - intros fwd s Es. destruct (bracket_single (negb fwd) fwd b) as [s0 [Es0 Hs0]]. rewrite Es0 in Es. inversion Es; subst s0.
       intros q q' Hq E. rewrite Hs0 in E. eapply bracket_step_clo; eauto.
   Qed.
@@ -281,7 +283,7 @@ Section Brackets.
     intro Hl. split.
     - intros [|f] fwd [q G] r Hx E; [discriminate|]. rewrite (charset_ir f fwd cs q G Hl) in E.
       destruct (charset_step fwd cs q) as [[q'|]|] eqn:Es; inversion E; subst; constructor; [|constructor].
-      eapply charset_step_clo; eauto.
+      apply (oks_move okp q G q' Hx). eapply charset_step_clo; [exact (proj1 Hx)|exact Es].
     - intros fwd s Es. destruct (charset_single (negb fwd) fwd cs Hl) as [s0 [Es0 Hs0]]. rewrite Es0 in Es. inversion Es; subst s0.
       intros q q' Hq E. rewrite Hs0 in E. eapply charset_step_clo; eauto.
   Qed.
@@ -304,7 +306,7 @@ Section Brackets.
     intros Hcode Hrun Hir. split.
     - intros [|f] fwd [q G] r Hx E; [discriminate|]. rewrite Hir in E. cbn [fst] in E. rewrite (Hrun fwd q) in E.
       destruct (next_if ix fwd h q t) as [e|[q'|]] eqn:En; cbn [results_of snd] in E; inversion E; subst; constructor; [|constructor].
-      eapply next_if_clo; eauto.
+      apply (oks_move okp q G q' Hx). eapply next_if_clo; [exact (proj1 Hx)|exact En].
     - intros fwd s Es. unfold single_step in Es. rewrite Hcode in Es. injection Es as Hs. subst s.
       intros q q' Hq E. change (run_insns ix unicode h [i] fwd q = Some (Some q')) in E.
       rewrite Hrun in E. destruct (next_if ix fwd h q t) as [e|[q1|]] eqn:En; inversion E; subst.
@@ -346,6 +348,35 @@ Section Brackets.
     - intros fwd s Es. rewrite Hs in Es. discriminate.
   Qed.
 
+  (* a case-insensitive backreference walks the text element by element *)
+  Lemma backref_go_clo pr fwd sub : forall fuel rp p p', okp p ->
+    backref_icase_go ix pr fuel fwd sub rp h p = Ok (Some p') -> okp p'.
+  Proof.
+    induction fuel as [|f IH]; intros rp p p' Hp E; [discriminate|]. cbn [backref_icase_go] in E.
+    destruct (cnext ix fwd sub rp) as [e|[[c1 rp']|]]; cbn [bindR] in E; try discriminate.
+    - destruct (cnext ix fwd h p) as [e|[[c2 p1]|]] eqn:Ec; cbn [bindR] in E; try discriminate.
+      destruct (fold_equals ix (p_unicode pr) c1 c2); [|discriminate]. eapply IH; [|exact E]. eapply Hk1; eauto.
+    - inversion E; subst. exact Hp.
+  Qed.
+
+  Lemma al_backref g ic : al (NBackRef g ic).
+  Proof.
+    split.
+    - intros [|f] fwd [p G] r Hx E; [discriminate|]. cbn [ir_results] in E.
+      destruct (g =? 0); [discriminate|]. destruct (nth_error G (N.to_nat (g - 1))) as [gd|] eqn:En; [|discriminate].
+      destruct (gd_range gd) as [[rs re]|] eqn:Eg; [|inversion E; subst; constructor; [exact Hx|constructor]].
+      destruct (backref_match ix (dummy_prog unicode) ic fwd h p rs re) as [e|[p'|]] eqn:Eb; inversion E; subst; constructor; [|constructor].
+      apply (oks_move okp p G p' Hx). unfold backref_match in Eb. destruct ic.
+      + destruct (re <? rs)%nat; [discriminate|]. destruct (length h <? re)%nat; [discriminate|].
+        eapply backref_go_clo; [exact (proj1 Hx)|exact Eb].
+      + (* the recorded range lies between well-formed positions *)
+        destruct Hx as [Hp HG]. cbn [fst snd] in Hp, HG. unfold gok in HG. rewrite Forall_forall in HG.
+        destruct (HG gd (nth_error_In _ _ En)) as [Hs He]. unfold gd_range in Eg.
+        destruct (gd_start gd) as [s0|] eqn:E1; [|discriminate]. destruct (gd_end gd) as [e0|] eqn:E2; [|discriminate].
+        inversion Eg; subst. eapply (Hk4 fwd p rs re p' Hp (Hs rs eq_refl) (He re eq_refl) Eb).
+    - intros fwd s Es. discriminate Es.
+  Qed.
+
   Theorem al_simple : forall n, simple n = true -> al n.
   Proof.
     induction n as [n Hleaf|l H|a b IHa IHb|id c nm IHc|neg bw sg eg c IHc|b mn mx g egs ege IHb|b mn mx g IHb] using node_ind2;
@@ -363,6 +394,7 @@ Section Brackets.
       + (* WordBoundary *) apply lclo_static; [reflexivity|]. intros [|f] fwd [q G] r E; [discriminate|]. cbn [ir_results] in E.
         unfold cond_results in E.
         match type of E with match ?c with _ => _ end = _ => destruct c as [e|[|]] end; inversion E; auto.
+      + apply al_backref.
       + apply al_bracket.
     - apply al_cat. cbn [simple] in Hs. rewrite forallb_forall in Hs. rewrite Forall_forall in *.
       intros x Hx. apply H; [exact Hx|apply Hs; exact Hx].
